@@ -48,6 +48,7 @@ type InSitu struct {
 type sortEigenvaluesType struct {
   v Vector
   p []int
+  m Matrix
 }
 
 func (obj sortEigenvaluesType) Len() int {
@@ -61,14 +62,19 @@ func (obj sortEigenvaluesType) Less(i, j int) bool {
 func (obj sortEigenvaluesType) Swap(i, j int) {
   obj.v.Swap(i, j)
   obj.p[i], obj.p[j] = obj.p[j], obj.p[i]
+  if obj.m != nil {
+    obj.m.SwapColumns(i, j)
+  }
 }
 
-func sortEigenvalues(v Vector) []int {
+// sort eigenvalues and, if given, the columns of the eigenvector
+// matrix along with them
+func sortEigenvalues(v Vector, m Matrix) []int {
   p := make([]int, v.Dim())
   for i := 0; i < len(p); i++ {
     p[i] = i
   }
-  sort.Sort(sort.Reverse(sortEigenvaluesType{v, p}))
+  sort.Sort(sort.Reverse(sortEigenvaluesType{v, p, m}))
   return p
 }
 
@@ -142,12 +148,7 @@ func getEigenvectors(eigenvectors Matrix, eigenvalues Vector, h, u Matrix, b Vec
 }
 
 func sortEigensystem(eigenvectors Matrix, eigenvalues Vector) {
-  if eigenvectors == nil {
-    sortEigenvalues(eigenvalues)
-  } else {
-    p := sortEigenvalues(eigenvalues)
-    eigenvectors.PermuteColumns(p)
-  }
+  sortEigenvalues(eigenvalues, eigenvectors)
 }
 
 /* -------------------------------------------------------------------------- */
